@@ -411,3 +411,12 @@ func lemmaOriginRoundTrip(p []byte) ([]byte, int) {
 //@   requires len(p) < 999999940
 //@   ensures is(out, GenBank) && sameslice(out.(GenBank).Table, gb.Table) && !isnil(out.(GenBank).Origin)
 //@   assigns nothing
+
+// The text of an ORIGIN block: the buffer itself while it is still in layout form, the layout
+// of the residues once it has been decoded.
+//@ func (o Origin) String() (s string)
+//@   prop C16
+//@   requires o.Parsed ==> len(o.Buffer) < 999999940
+//@   ensures raw: !o.Parsed ==> len(s) == len(o.Buffer) && (forall k in 0..len(s): s[k] == o.Buffer[k])
+//@   ensures encoded: o.Parsed ==> len(s) == olen(len(o.Buffer))
+//@   assigns nothing
